@@ -1,4 +1,4 @@
-HOOK_COMMITS = ['0b4062a', 'ab40d75', '04e6a20', 'f1571dc', '486cecc']
+HOOK_COMMITS = ['0b4062a', 'ab40d75', '04e6a20', 'f1571dc', '486cecc', '353414c']
 # properties whose check exists but whose theorems are still being proved: not claimed yet
 PENDING = set()
 NOT_YET = {}
